@@ -450,6 +450,8 @@ pub enum AttrKind {
 pub struct Attr {
     pub name: String,
     pub kind: AttrKind,
+    /// index of the attribute among all attributes of the rendered input
+    pub gid: usize,
 }
 
 #[derive(Clone, Debug)]
@@ -515,6 +517,7 @@ pub fn partition(rng: &mut Rng, r: &Recv, items: &[Item], pieces: usize) -> Vec<
             attrs.push(Attr {
                 name: String::new(),
                 kind: AttrKind::Foreign((*rng.pick(&FOREIGN)).to_string()),
+                gid: 0,
             });
         }
         return attrs;
@@ -536,6 +539,7 @@ pub fn partition(rng: &mut Rng, r: &Recv, items: &[Item], pieces: usize) -> Vec<
             attrs.push(Attr {
                 name: String::new(),
                 kind: AttrKind::Foreign((*rng.pick(&FOREIGN)).to_string()),
+                gid: 0,
             });
         }
         if rng.chance(1, 5) {
@@ -543,19 +547,25 @@ pub fn partition(rng: &mut Rng, r: &Recv, items: &[Item], pieces: usize) -> Vec<
             attrs.push(Attr {
                 name: name.clone(),
                 kind: if rng.coin() { AttrKind::Word } else { AttrKind::List(vec![], 0) },
+                gid: 0,
             });
         }
         let name = rng.pick(&r.attr_names).clone();
         attrs.push(Attr {
             name,
             kind: AttrKind::List(g, if rng.chance(1, 8) { rng.range(1, 2) as u8 } else { 0 }),
+            gid: 0,
         });
     }
     if rng.chance(1, 3) {
         attrs.push(Attr {
             name: String::new(),
             kind: AttrKind::Foreign((*rng.pick(&FOREIGN)).to_string()),
+            gid: 0,
         });
+    }
+    for (i, a) in attrs.iter_mut().enumerate() {
+        a.gid = i;
     }
     attrs
 }
